@@ -404,6 +404,9 @@ func (p *storeProp) Gen(r *Rand, tier string, idx int) any {
 			}
 			if op.Op == "tag" && r.Chance(0.3) {
 				op.Var = r.Range(1, 2) // same content, other descriptor annotations
+				if sp.Kind == "oci" && r.Chance(0.3) {
+					op.Var = 3 // a blob named as application/octet-stream, as Resolve by digest names it
+				}
 			} else if op.Op == "tag" && r.Chance(0.2) {
 				op = SOp{Op: "retag", From: randRef(), Ref: randRef()} // tag what another tag resolves to
 			}
@@ -1119,6 +1122,26 @@ func (c *cancelFS) Open(name string) (fs.File, error) {
 	return c.FS.Open(name)
 }
 
+// taggedUnderTwoMediaTypes: the history tags blob n both as what it is and as octet-stream.
+func (sr *storeRun) taggedUnderTwoMediaTypes(n int) bool {
+	if n < 0 || n >= len(sr.g.Nodes) || sr.g.Nodes[n].IsManif {
+		return false
+	}
+	plain, octet := false, false
+	for _, list := range [][]SOp{sr.sp.Prologue, sr.sp.Ops, sr.sp.Epilogue} {
+		for _, o := range list {
+			if o.Op == "tag" && sr.g.Canon(o.Node) == sr.g.Canon(n) {
+				if o.Var == 3 {
+					octet = true
+				} else {
+					plain = true
+				}
+			}
+		}
+	}
+	return plain && octet
+}
+
 // failFS fails its at-th Open with an I/O error that is not "does not exist".
 type failFS struct {
 	fs.FS
@@ -1387,6 +1410,10 @@ func (sr *storeRun) reopen(how string) *Verdict {
 		snap := takeSnapshot(re, g, true, true)
 		if d := diffSnapshots(orig, snap, "original", "reopened("+how+")", g, true, true); d != "" {
 			sig := ""
+			var dn int
+			if _, err := fmt.Sscanf(d, "Resolve(digest of n%d)", &dn); err == nil && sr.taggedUnderTwoMediaTypes(dn) {
+				sig = "resolve-by-digest-of-blob-tagged-under-two-media-types"
+			}
 			if m := sr.unindexedManifestOnDisk(orig); m >= 0 && sr.gcRan {
 				sig = "stored-manifest-without-index-entry-after-gc"
 				d += fmt.Sprintf(" (manifest n%d is stored but GC dropped its index entry)", m)
